@@ -7,6 +7,10 @@ stable = set(base["stable_pass"])
 fd, xml = tempfile.mkstemp(suffix=".xml"); os.close(fd)
 env = dict(os.environ); env.pop("REUSE_VERIF", None)
 cmd = base["cmd"].replace("<file>", xml)
+if len(sys.argv) > 1:  # another checkout (scratch worktree): same command there, importing that tree
+    d = os.path.abspath(sys.argv[1])
+    cmd = cmd.replace("cd /repo", f"cd {d}")
+    env["PYTHONPATH"] = os.path.join(d, "src")
 p = subprocess.run(cmd, shell=True, env=env, stdout=subprocess.PIPE, stderr=subprocess.STDOUT)
 passed = set()
 for tc in ET.parse(xml).getroot().iter("testcase"):
